@@ -95,14 +95,28 @@ def check(model, rep, tier):
               'extracted from it (or reject it): %s' % (kind, why),
               {'body': core.norm(h.node)[:160]}, line=h.node.lineno,
               witness='a side-effecting call inside the lazy operand')
+  def raise_formula(fn_node):
+    """(condition under which fn_node raises, its raise statements)"""
+    rs = [x for x in core.walk_no_nested(fn_node) if isinstance(x, ast.Raise)]
+    f = formula.FALSE
+    for x in rs:
+      f = f | formula.condition_formula(fn_node, x, lambda e: core.norm(e))
+    return f, rs
+
+  def cfg_index(g, stmt):
+    for i, (k, a) in enumerate(g.nodes):
+      if a is stmt:
+        return i
+    return None
+
   cmp_h = cls.methods.get('visit_Compare')
   ok = False
   if cmp_h is not None:
-    for n in cmp_h.node.body:
-      if isinstance(n, ast.If) and core.norm(n.test) in (
-          'len(node.ops) > 1', 'len(node.comparators) > 1') and any(
-              isinstance(x, ast.Raise) for x in n.body):
-        ok = True
+    f, rs = raise_formula(cmp_h.node)
+    p_ = cmp_h.params()[0]
+    ok = bool(rs) and any(
+        formula.equivalent(f, ~formula.atom('len(%s.%s) <= 1' % (p_, fld)))[0]
+        for fld in ('ops', 'comparators'))
   rep.check(ok, 'ANF-LAZY', '%s:AnfTransformer:lazy(Compare-chain)' % ANF,
             'chained comparisons short-circuit and must be rejected',
             line=cmp_h.node.lineno if cmp_h else None)
@@ -112,11 +126,12 @@ def check(model, rep, tier):
     g = pycfg.CFG(wh.node)
     ens = [i for i in range(len(g.nodes)) if any(
         core.norm(c.func) == 'self._ensure_node_in_anf' for c in pycfg.calls_at(g, i))]
-    chk = [i for i, (k, a) in enumerate(g.nodes) if k == 'test' and
-           core.norm(a) == 'self._pending_statements']
-    if ens and chk:
+    f, rs = raise_formula(wh.node)
+    ri = [cfg_index(g, x) for x in rs]
+    if ens and rs and None not in ri:
       dom = g.dominators(skip_labels=('exc',))
-      ok = ens[0] in dom[chk[0]] and _branch_raises(g, chk[0], 'T')
+      ok = all(ens[0] in dom[i] for i in ri) and formula.equivalent(
+          f, formula.atom('self._pending_statements'))[0]
   rep.check(ok, 'ANF-LAZY', '%s:AnfTransformer:lazy(While.test)' % ANF,
             'a while test is re-evaluated on every iteration: it must be '
             'rejected when naming it produced statements', line=wh.node.lineno
@@ -132,26 +147,30 @@ def check(model, rep, tier):
         core.norm(c.func) == 'self.generic_visit' for c in pycfg.calls_at(g, i))]
     ens = [i for i in range(len(g.nodes)) if any(
         core.norm(c.func) == 'self._ensure_fields_in_anf' for c in pycfg.calls_at(g, i))]
-    tests = [i for i, (k, a) in enumerate(g.nodes) if k == 'test']
-    ok = len(gv) == 1 and len(ens) == 1 and len(tests) == 1
+    f, rs = raise_formula(hv)
+    ri = [cfg_index(g, x) for x in rs]
+    ok = len(gv) == 1 and len(ens) == 1 and bool(rs) and None not in ri
     facts = {}
     if ok:
       dom = g.dominators(skip_labels=('exc',))
-      ok = gv[0] in dom[tests[0]] and ens[0] in dom[tests[0]]
-      t = g.nodes[tests[0]][1]
-      facts['test'] = core.norm(t)
+      ok = all(gv[0] in dom[i] and ens[0] in dom[i] for i in ri)
+      facts['raises_when'] = repr(f)
       if hname.endswith('expression'):
         # count taken before the visit
         cnt = [i for i, (k, a) in enumerate(g.nodes) if isinstance(a, ast.Assign)
                and core.norm(a.value) == 'len(self._pending_statements)']
-        ok = ok and len(cnt) == 1 and cnt[0] in dom[gv[0]] and isinstance(
-            t, ast.Compare) and core.norm(t.left) == 'len(self._pending_statements)' \
-            and core.norm(t.comparators[0]) == core.norm(
-                g.nodes[cnt[0]][1].targets[0]) if cnt else False
+        if len(cnt) == 1 and cnt[0] in dom[gv[0]]:
+          k_ = core.norm(g.nodes[cnt[0]][1].targets[0])
+          ok = ok and any(formula.equivalent(f, ~formula.atom(t_))[0] for t_ in (
+              'len(self._pending_statements) == %s' % k_,
+              '%s == len(self._pending_statements)' % k_,
+              'len(self._pending_statements) <= %s' % k_))   # the list only grows
+        else:
+          ok = False
       else:
         asserts = [a for a in hv.body if isinstance(a, ast.Assert)]
-        ok = ok and core.norm(t) == 'self._pending_statements' and bool(asserts)
-      ok = ok and _branch_raises(g, tests[0], 'T')
+        ok = ok and bool(asserts) and formula.equivalent(
+            f, formula.atom('self._pending_statements'))[0]
     rep.check(ok, 'ANF-LAZY', '%s:%s:detects-extraction' % (ANF, hname),
               'the helper must compare the number of pending statements after '
               'visiting and naming with the number taken *before* the visit, '
@@ -244,10 +263,21 @@ def check(model, rep, tier):
       rets = g.nodes_where(lambda k, a: k == 'return')
       stmts_var = core.norm(g.nodes[consume[0]][1].targets[0]) if isinstance(
           g.nodes[consume[0]][1], ast.Assign) else None
-      ok = ok and stmts_var is not None and all(
-          core.norm(g.nodes[r][1].value) == stmts_var for r in rets) and any(
-              core.norm(c.func) == stmts_var + '.append'
-              for i in range(len(g.nodes)) for c in pycfg.calls_at(g, i))
+      appended = stmts_var is not None and any(
+          core.norm(c.func) == stmts_var + '.append'
+          for i in range(len(g.nodes)) for c in pycfg.calls_at(g, i))
+
+      def flushed_first(v):
+        # the extracted statements, then the statement itself: the list after
+        # `.append(node)`, or `stmts + [node]`
+        if core.norm(v) == stmts_var:
+          return appended
+        return isinstance(v, ast.BinOp) and isinstance(v.op, ast.Add) and \
+            core.norm(v.left) == stmts_var and isinstance(v.right, ast.List) and \
+            len(v.right.elts) == 1 and isinstance(v.right.elts[0], ast.Name)
+      ok = ok and stmts_var is not None and bool(rets) and all(
+          g.nodes[r][1].value is not None and flushed_first(g.nodes[r][1].value)
+          for r in rets)
     rep.check(ok, 'ANF-BLOCKS', '%s:AnfTransformer:%s' % (ANF, hname),
               '%s must flush the statements extracted from its header '
               'expression in front of itself before visiting its blocks, and '
